@@ -404,46 +404,7 @@ func runC10(p *an.Prog, r *an.Run, tier string) {
 	r.Floor("id-counter-accesses", nID, 1)
 	r.Check(len(bad) == 0, "atomic-counter", "jsonrpc2.Client.id", token.NoPos, "request ids come from sync/atomic only", "%s", strings.Join(bad, "; "))
 
-	// ---- one-txn
-	bs := p.Named("pool/store/badger", "badgerStore")
-	if bs == nil {
-		r.Undec("one-txn", "badgerStore", token.NoPos, "type not found")
-	} else {
-		n := 0
-		for i := 0; i < bs.NumMethods(); i++ {
-			m := p.SSA.FuncValue(bs.Method(i))
-			if m == nil || len(m.Blocks) == 0 {
-				continue
-			}
-			r.Analysed(an.FuncName(m))
-			ops := badgerOps(p, m)
-			regs := txnRegions(p, m)
-			key := "badger." + m.Name()
-			if len(ops) == 0 && len(regs) == 0 {
-				continue // Close
-			}
-			n++
-			var bad []string
-			if len(regs) != 1 {
-				bad = append(bad, "runs "+itoa(len(regs))+" transactions (want exactly 1): reads and writes in different transactions are not atomic")
-			} else {
-				for _, o := range ops {
-					if o.Fn != regs[0].Closure && !isNested(o.Fn, regs[0].Closure) {
-						bad = append(bad, o.Kind.String()+" via "+o.Via+" at "+p.Pos(o.In.Pos())+" is outside the transaction closure")
-					}
-					if (o.Kind == opWrite || o.Kind == opDelete) && !regs[0].Update {
-						bad = append(bad, "write inside a read-only View transaction at "+p.Pos(o.In.Pos()))
-					}
-				}
-				// the transaction's error must not be dropped
-				if u := an.ErrEdges(regs[0].Call); u.Dropped {
-					bad = append(bad, "the transaction's error is dropped")
-				}
-			}
-			r.Check(len(bad) == 0, "one-txn", key, m.Pos(), "one "+txnKind(regs)+" region holds every access", "%s", strings.Join(bad, "; "))
-		}
-		r.Floor("badger-methods", n, 15)
-	}
+	checkOneTxn(p, r, "one-txn")
 
 	// ---- no-shared-bigint
 	bad = nil
@@ -680,4 +641,48 @@ func checkNoBlockUnderLock(p *an.Prog, r *an.Run, rule string, want func(*ssa.Fu
 	}
 	r.Floor(rule+"-locked-instructions", n, 50)
 	r.Check(len(bad) == 0, rule, "repo", token.NoPos, "no channel operation, codec I/O, RPC call or handler dispatch while a mutex is held", "a blocked lock holder wedges every other request needing that lock: %s", strings.Join(dedup(bad), "; "))
+}
+
+// checkOneTxn: every badgerStore method performs all accesses in exactly one Update/View region.
+func checkOneTxn(p *an.Prog, r *an.Run, rule string) {
+	bs := p.Named("pool/store/badger", "badgerStore")
+	if bs == nil {
+		r.Undec(rule, "badgerStore", token.NoPos, "type not found")
+	} else {
+		n := 0
+		for i := 0; i < bs.NumMethods(); i++ {
+			m := p.SSA.FuncValue(bs.Method(i))
+			if m == nil || len(m.Blocks) == 0 {
+				continue
+			}
+			r.Analysed(an.FuncName(m))
+			ops := badgerOps(p, m)
+			regs := txnRegions(p, m)
+			key := "badger." + m.Name()
+			if len(ops) == 0 && len(regs) == 0 {
+				continue // Close
+			}
+			n++
+			var bad []string
+			if len(regs) != 1 {
+				bad = append(bad, "runs "+itoa(len(regs))+" transactions (want exactly 1): reads and writes in different transactions are not atomic")
+			} else {
+				for _, o := range ops {
+					if o.Fn != regs[0].Closure && !isNested(o.Fn, regs[0].Closure) {
+						bad = append(bad, o.Kind.String()+" via "+o.Via+" at "+p.Pos(o.In.Pos())+" is outside the transaction closure")
+					}
+					if (o.Kind == opWrite || o.Kind == opDelete) && !regs[0].Update {
+						bad = append(bad, "write inside a read-only View transaction at "+p.Pos(o.In.Pos()))
+					}
+				}
+				// the transaction's error must not be dropped
+				if u := an.ErrEdges(regs[0].Call); u.Dropped {
+					bad = append(bad, "the transaction's error is dropped")
+				}
+			}
+			r.Check(len(bad) == 0, rule, key, m.Pos(), "one "+txnKind(regs)+" region holds every access", "%s", strings.Join(bad, "; "))
+		}
+		r.Floor("badger-methods", n, 15)
+	}
+
 }
